@@ -23,16 +23,19 @@ TPing == 130  TAddrResp == 128  TAddrReq == 195  TNetAck == 193  TPoll == 194  T
 IsAckT(t) == t > 64 /\ t < 192
 
 \* the frames a node puts on air: physical address, header, message, radio-level acknowledgement requested or not
-Tx(phys, h, msg, noack) == [phys |-> phys, data |-> PackFrame(h, msg), noack |-> noack]
+\* (hop: the logical receiver - a node address, or -L for "every node of level L"; the monitor compares phys / data / noack,
+\* NetDispatchWalk composes outcomes hop by hop through `hop`)
+TxH(hop, phys, h, msg, noack) == [hop |-> hop, phys |-> phys, data |-> PackFrame(h, msg), noack |-> noack]
 Toward(c, d, px, sx) == PhysAddr(NextHop(c.addr, d), PipeToward(c.addr, d), px, sx, c.allowMc)
+TxToward(c, d, h, msg, px, sx) == TxH(NextHop(c.addr, d), Toward(c, d, px, sx), h, msg, FALSE)
 \* "physical" transmissions go, unacknowledged, to pipe 0 of the named node (its level's shared address when multicast is on)
 Pipe0Of(c, a, px, sx) == PhysAddr(a, 0, px, sx, c.allowMc)
 
 \* forwarding a frame for another node; the hop that reaches the destination owes the origin a NETWORK_ACK for ack-type frames
 Forward(c, h, msg, px, sx) ==
-  <<Tx(Toward(c, h.to, px, sx), h, msg, FALSE)>> \o
+  <<TxToward(c, h.to, h, msg, px, sx)>> \o
   (IF NextHop(c.addr, h.to) = h.to /\ IsAckT(h.type) /\ h.from # c.addr
-   THEN <<Tx(Toward(c, h.from, px, sx), [h EXCEPT !.type = TNetAck, !.to = h.from], msg, FALSE)>> ELSE <<>>)
+   THEN <<TxToward(c, h.from, [h EXCEPT !.type = TNetAck, !.to = h.from], msg, px, sx)>> ELSE <<>>)
 
 Nothing(ret) == [ret |-> ret, queued |-> FALSE, tx |-> <<>>]
 
@@ -46,7 +49,7 @@ LookupAnswer(c, h, msg, px, sx) ==
       val == IF h.type = TAddrLookup THEN AddrOfId(c.dhcp, msg[1]) ELSE IdOfAddr(c.dhcp, msg[1] + 256 * msg[2]) IN
   IF ~enough THEN Nothing(h.type)                                  \* truncated request: ignored
   ELSE [ret |-> h.type, queued |-> FALSE,
-        tx |-> <<Tx(Toward(c, h.from, px, sx), [h EXCEPT !.to = h.from], Signed16(val), FALSE)>>]
+        tx |-> <<TxToward(c, h.from, [h EXCEPT !.to = h.from], Signed16(val), px, sx)>>]
 
 InContract(c, h) == /\ h.type \notin {FIRST, MORE, LAST}
                     /\ IsNode(h.from) /\ (IsNode(h.to) \/ (h.to = McastAddr /\ c.allowMc))
@@ -59,17 +62,17 @@ Outcome(c, h, msg, px, sx) ==
      IF c.role = "master" /\ h.type \in {TAddrLookup, TIdLookup} THEN LookupAnswer(c, h, msg, px, sx)
      ELSE IF h.type = TPing THEN Nothing(TPing)
      ELSE IF h.type = TAddrResp /\ c.addr # Default THEN            \* hand an address response on to the unassigned requester
-          [ret |-> TAddrResp, queued |-> FALSE, tx |-> <<Tx(Pipe0Of(c, Default, px, sx), [h EXCEPT !.to = Default], msg, TRUE)>>]
+          [ret |-> TAddrResp, queued |-> FALSE, tx |-> <<TxH(Default, Pipe0Of(c, Default, px, sx), [h EXCEPT !.to = Default], msg, TRUE)>>]
      ELSE IF h.type = TAddrReq /\ c.addr # 0 THEN                   \* pass an address request on to the master, in this node's name
-          [ret |-> TAddrReq, queued |-> FALSE, tx |-> <<Tx(Toward(c, 0, px, sx), [h EXCEPT !.from = c.addr, !.to = 0], msg, FALSE)>>]
+          [ret |-> TAddrReq, queued |-> FALSE, tx |-> <<TxToward(c, 0, [h EXCEPT !.from = c.addr, !.to = 0], msg, px, sx)>>]
      ELSE IF (c.retSys /\ h.type > 127 /\ h.type # TExt) \/ h.type = TNetAck THEN Nothing(h.type)   \* system message: reported, not queued
      ELSE [ret |-> h.type, queued |-> TRUE, tx |-> <<>>]
   ELSE IF h.to = McastAddr /\ c.allowMc THEN                        \* ---- multicast to this node's level
      IF h.type = TPoll /\ c.addr # Default THEN                     \* a joining node polls: answer directly unless children are refused
         [ret |-> 0, queued |-> FALSE,
-         tx |-> IF c.parent THEN <<Tx(Pipe0Of(c, h.from, px, sx), [h EXCEPT !.to = h.from, !.from = c.addr], msg, TRUE)>> ELSE <<>>]
+         tx |-> IF c.parent THEN <<TxH(h.from, Pipe0Of(c, h.from, px, sx), [h EXCEPT !.to = h.from, !.from = c.addr], msg, TRUE)>> ELSE <<>>]
      ELSE [ret |-> h.type, queued |-> TRUE,
-           tx |-> (IF c.relay THEN <<Tx(PhysAddr(LevelAddr(c.lvl + 1), 0, px, sx, TRUE), h, msg, TRUE)>> ELSE <<>>)
+           tx |-> (IF c.relay THEN <<TxH(-(c.lvl + 1), PhysAddr(LevelAddr(c.lvl + 1), 0, px, sx, TRUE), h, msg, TRUE)>> ELSE <<>>)
                   \* (the master answers a look-up whatever address it was sent to)
                   \o (IF c.role = "master" /\ h.type \in {TAddrLookup, TIdLookup} THEN LookupAnswer(c, h, msg, px, sx).tx ELSE <<>>)]
   ELSE IF c.addr = Default THEN Nothing(h.type)                     \* ---- for somebody else, but this node has no place in the tree
@@ -83,8 +86,8 @@ WriteOutcome(c, h0, msg, direct, px, sx) ==
   LET h == [h0 EXCEPT !.from = c.addr] IN
   IF direct = Auto THEN
        IF h.to = c.addr THEN [queued |-> TRUE, tx |-> <<>>, waits |-> FALSE]            \* loop-back: straight into the own queue
-       ELSE [queued |-> FALSE, tx |-> <<Tx(Toward(c, h.to, px, sx), h, msg, FALSE)>>,
+       ELSE [queued |-> FALSE, tx |-> <<TxToward(c, h.to, h, msg, px, sx)>>,
              waits |-> IsAckT(h.type) /\ NextHop(c.addr, h.to) # h.to]                   \* a NETWORK_ACK is awaited only over >= 2 hops
   ELSE \* handed, without radio acknowledgement, to pipe 0 of `direct`; nothing is awaited
-       [queued |-> FALSE, tx |-> <<Tx(Pipe0Of(c, direct, px, sx), h, msg, TRUE)>>, waits |-> FALSE]
+       [queued |-> FALSE, tx |-> <<TxH(direct, Pipe0Of(c, direct, px, sx), h, msg, TRUE)>>, waits |-> FALSE]
 =============================================================================
